@@ -391,7 +391,7 @@ fn main() {
                                 retry_max_iter: RETRY_MAX_ITER,
                                 order: oname.to_string(),
                                 scale,
-                                n_rows: None, fit_layout: std_layout(), query_layout: std_layout(), float: f64_name(), setter_order: None, decoys: false, ctor: default_ctor(), skip_setters: vec![], target_layout: std_layout(), naming_via_map_targets: false,
+                                n_rows: None, fit_layout: std_layout(), query_layout: std_layout(), float: f64_name(), setter_order: None, decoys: false, ctor: default_ctor(), skip_setters: vec![], target_layout: std_layout(), naming_via_map_targets: false, init_rows_delta: 0,
                             });
                             let mut v = Vec::new();
                             let o = run_case(&case, &mut v);
@@ -479,7 +479,7 @@ fn main() {
                             retry_max_iter: RETRY_MAX_ITER,
                             order: oname.to_string(),
                             scale,
-                            n_rows: None, fit_layout: std_layout(), query_layout: std_layout(), float: f64_name(), setter_order: None, decoys: false, ctor: default_ctor(), skip_setters: vec![], target_layout: std_layout(), naming_via_map_targets: false,
+                            n_rows: None, fit_layout: std_layout(), query_layout: std_layout(), float: f64_name(), setter_order: None, decoys: false, ctor: default_ctor(), skip_setters: vec![], target_layout: std_layout(), naming_via_map_targets: false, init_rows_delta: 0, init_cols_delta: 0,
                         });
                         let mut v = Vec::new();
                         let o = run_case(&case, &mut v);
@@ -617,6 +617,7 @@ fn main() {
         skip_setters: vec![],
         target_layout: std_layout(),
         naming_via_map_targets: false,
+        init_rows_delta: 0,
     };
     let mk_multi = |fam: &str, pts: &Vec<Vec<f64>>, part: &Vec<u8>, k: usize, scale: f64, alpha: f64, intercept: bool| MultiCase {
         family: fam.to_string(),
@@ -643,6 +644,8 @@ fn main() {
         skip_setters: vec![],
         target_layout: std_layout(),
         naming_via_map_targets: false,
+        init_rows_delta: 0,
+        init_cols_delta: 0,
     };
     let tw_pairs: [(f64, &str); 5] = [(0.0, "identity"), (1.0, "log"), (1.5, "log"), (2.0, "log"), (3.0, "logit")];
     let design_h1: Vec<Vec<f64>> = (0..5).map(|i| vec![i as f64 * 0.5]).collect();
@@ -1019,6 +1022,42 @@ fn main() {
                             let mut c = mk_tw(fam, &pts, y.clone(), p, link, alpha, intercept);
                             c.target_layout = tl.to_string();
                             hcases.push(Case::Tweedie(c));
+                            n_routing += 1;
+                        }
+                    }
+                }
+            }
+        }
+        // (e2b) MIS-SHAPED initial parameters: one row short / too many (multinomial also one column short / too many):
+        //       Err(InitialParameter*Mismatch), or Ok and then a stationary point of the CONFIGURED model
+        for (fam, pts) in lat6.iter().filter(|(f, _)| *f != "1d_doubled") {
+            for &mask in &[0b010110u32, 0b101001, 0b000111] {
+                for &alpha in &[0.0, 1.0] {
+                    for intercept in [true, false] {
+                        for delta in [-1i8, 1] {
+                            let mut c = mk_bin(fam, pts, mask, 1.0, alpha, intercept);
+                            let mut init: Vec<f64> = (0..pts[0].len()).map(|j| if j % 2 == 0 { 0.1 } else { -0.05 }).collect();
+                            if intercept {
+                                init.push(-0.2);
+                            }
+                            c.init = Some(init);
+                            c.init_rows_delta = delta;
+                            hcases.push(Case::Binary(c));
+                            n_routing += 1;
+                        }
+                    }
+                }
+            }
+            for (k, part) in [(3usize, vec![0u8, 1, 2, 0, 1, 2]), (4, vec![0, 0, 1, 1, 2, 3])] {
+                for &alpha in &[0.01, 1.0] {
+                    for intercept in [true, false] {
+                        for (dr, dc) in [(-1i8, 0i8), (1, 0), (0, -1), (0, 1)] {
+                            let mut c = mk_multi(fam, pts, &part, k, 1.0, alpha, intercept);
+                            let pz = pts[0].len() + intercept as usize;
+                            c.init = Some((0..pz).map(|i| (0..k).map(|cc| (((i + 2 * cc) % 3) as f64 - 1.0) * 0.1).collect()).collect());
+                            c.init_rows_delta = dr;
+                            c.init_cols_delta = dc;
+                            hcases.push(Case::Multi(c));
                             n_routing += 1;
                         }
                     }
